@@ -111,10 +111,10 @@ pub trait Property: Sync {
             "real: quiver-environment Worker/Environment/Repl/messages",
             "real: quiver-compiler parser/compiler/module import (every workload is compiled from source text)",
             "real: quiver-io file, directory, stat, DNS and TCP builtins (argument decoding -> NativeEffect requests) and NativeEffect::resource_id",
-            "stub: quiver-io NativeEffectBackend (io_uring, real files/sockets/DNS) -> SimBackend: in-memory files (plus a virtual 16 MiB + 4 KiB file), directory iterators and stat with result type ids pushed by the environment, a fixed-address DNS resolver iterator, loopback TCP (pending accept/read completed by another process's connect/write/close); scheduler-released async completions, injected submit/completion errors and short I/O",
+            "stub: quiver-io NativeEffectBackend (io_uring, real files/sockets/DNS) -> SimBackend: in-memory files (plus a virtual 16 MiB + 4 KiB file), directory iterators and stat with result type ids pushed by the environment, a fixed-address DNS resolver iterator, loopback TCP (pending accept/read completed by another process's connect/write/close); scheduler-released async completions, injected submit/completion errors and short I/O on files, refused connects, failing accepts, socket errors and short socket I/O on the loopback TCP; the native read-buffer allocation is modelled",
             "stub: quiver-cli native_transport (mpsc+threads) -> SimTransport + seeded scheduler (reliable per-channel FIFO, prefix visibility)",
             "stub: quiver-web pump/worker_entry/repl glue -> event-driven drive mode + serde-JSON round trip of every Command/Event; run configurations io_signatures_only (its worker's builtin registry) and keep_session_after_error (its REPL glue) used by C15",
-            "stub: quiver-cli main.rs/repl_cli.rs glue -> harness client state machine (compile, extract entry, start/resume, request, poll)",
+            "stub: quiver-cli main.rs/repl_cli.rs glue -> harness client state machine (compile, extract entry, start/resume, request, poll; lines entered without waiting for the previous one; a module edited and reloaded; observer requests - statuses, infos, results of running processes - issued at moments the scheduler picks)",
             "simulated: clock (virtual ms, per-worker offsets, backward wall-clock steps), OS scheduling, HashMap seeds (getrandom interposer)",
         ]
     }
